@@ -51,6 +51,9 @@ def coroutine_payload(rnd, pid, flavour):
 def gen_case(rnd, spec):
     trigger = TRIGGERS[spec.get("case_index", 0) % len(TRIGGERS)] if rnd.random() < 0.6 else rnd.choice(TRIGGERS)
     gen = {"accept_delay": rnd.choice([0.02, 0.05, 0.1]), "payloads": [], "services": [], "grace": 0.4}
+    meta_mode = rnd.random() < 0.2  # MetaRunner.run() / stop() driven directly (no service loop, no services)
+    if meta_mode:
+        gen["mode"] = "meta"
     script = [["wait_running", 8]]
     late = []
     n = 0
@@ -59,6 +62,8 @@ def gen_case(rnd, spec):
             p = coroutine_payload(rnd, "c%d" % n, flavour)
             n += 1
             how = rnd.choice(["queued", "running", "running", "late", "carried", "service"])
+            if meta_mode and how == "service":
+                how = "running"
             if how == "queued":
                 p["when"] = "queued"
                 gen["payloads"].append(p)
@@ -118,7 +123,7 @@ def gen_case(rnd, spec):
         script.append(["stop"])
     script.append(["expect_end", 8.0])
     gen["script"] = script
-    return {"watchdog": 30, "inject": common.inject_conf(rnd, 0.7), "generations": [gen], "meta": {"trigger": trigger}}
+    return {"watchdog": 30, "inject": common.inject_conf(rnd, 0.7), "generations": [gen], "meta": {"trigger": trigger, "meta_runner": meta_mode}}
 
 
 def judge(case, run, result):
@@ -140,6 +145,8 @@ def judge(case, run, result):
         problems.append(("trigger %s: accept did not end within 8 s (blocked thread payloads: %s)" % (trigger, blocked), None))
         return problems
     result.count("trigger_" + trigger)
+    if case["meta"].get("meta_runner"):
+        result.count("scenarios_driving_metarunner_directly")
     end_seq = ended["seq"]
     mech = None
     checked = 0
@@ -208,7 +215,7 @@ def run_shard(spec):
 
 def finish(total, tier):
     need = ["running_coroutine_payloads_judged", "payloads_cancelled_and_cleaned_asyncio", "payloads_cancelled_and_cleaned_trio",
-            "shielded_cleanups_finished_first", "terminations_with_blocked_threads", "payloads_adopted_during_termination_started"]
+            "shielded_cleanups_finished_first", "terminations_with_blocked_threads", "payloads_adopted_during_termination_started", "scenarios_driving_metarunner_directly"]
     need += ["trigger_" + t for t in TRIGGERS if not t.startswith("systemexit")]
     for name in need:
         if not total.counters.get(name) and not total.violations:
